@@ -205,4 +205,134 @@ theorem ranked_of_B (b : Bodies) (rank rankB : Nat → Nat) (h : rankedB b rank 
     simp only [rankedB, List.all_eq_true, Bool.and_eq_true, decide_eq_true_eq] at h
     exact h (bid, refs) hm x hx
 
+/-! ### no relation is defined twice -/
+
+theorem withList_append (a b : List Ev) : withList (a ++ b) = withList a ++ withList b := by
+  simp [withList, List.filterMap_append]
+
+theorem mem_withList (log : List Ev) (t : Nat) : t ∈ withList log ↔ Ev.ctePush t ∈ log := by
+  simp only [withList, List.mem_filterMap]
+  constructor
+  · rintro ⟨e, he, h⟩
+    cases e <;> simp at h
+    subst h; exact he
+  · intro h; exact ⟨_, h, rfl⟩
+
+/-- pushed relations are marked defined, and nothing is pushed twice -/
+structure Once (st : St) : Prop where
+  marked : ∀ t, Ev.ctePush t ∈ st.log → t ∈ st.defined
+  nodup : (withList st.log).Nodup
+
+/-- what one compilation adds: `defined` only grows, and a relation is pushed only if it was not defined before -/
+structure Step (st st' : St) : Prop where
+  once : Once st'
+  grows : ∀ t ∈ st.defined, t ∈ st'.defined
+  fresh : ∀ t, Ev.ctePush t ∈ st'.log → Ev.ctePush t ∈ st.log ∨ t ∉ st.defined
+
+theorem Step.refl {st : St} (h : Once st) : Step st st := ⟨h, fun _ ht => ht, fun _ ht => Or.inl ht⟩
+
+theorem Step.trans {a b c : St} (h1 : Step a b) (h2 : Step b c) : Step a c := by
+  refine ⟨h2.once, fun t ht => h2.grows t (h1.grows t ht), ?_⟩
+  intro t ht
+  rcases h2.fresh t ht with h | h
+  · exact h1.fresh t h
+  · exact Or.inr (fun hd => h (h1.grows t hd))
+
+theorem Once.log_nonpush {st : St} (h : Once st) (e : Ev) (hne : ∀ t, e ≠ .ctePush t) :
+    Step st { st with log := st.log ++ [e] } := by
+  have hw : withList (st.log ++ [e]) = withList st.log := by
+    rw [withList_append]; cases e <;> simp [withList] at hne ⊢
+  refine ⟨⟨?_, by simpa [hw] using h.nodup⟩, fun _ ht => ht, ?_⟩
+  · intro t ht
+    rcases List.mem_append.1 ht with h1 | h1
+    · exact h.marked t h1
+    · simp at h1; exact absurd h1.symm (hne t)
+  · intro t ht
+    rcases List.mem_append.1 ht with h1 | h1
+    · exact Or.inl h1
+    · simp at h1; exact absurd h1.symm (hne t)
+
+theorem compile_once (b : Bodies) : ∀ fuel (st : St) (r : Ref), Once st → Step st (compileRef b fuel st r) := by
+  intro fuel
+  induction fuel with
+  | zero => intro st r h; simpa [compileRef] using Step.refl h
+  | succ fuel ih =>
+    have hfold : ∀ (refs : List Ref) (st : St), Once st → Step st (refs.foldl (fun s x => compileRef b fuel s x) st) := by
+      intro refs
+      induction refs with
+      | nil => intro st h; simpa using Step.refl h
+      | cons x xs ihx =>
+        intro st h
+        simp only [List.foldl_cons]
+        exact (ih st x h).trans (ihx _ (ih st x h).once)
+    intro st r h
+    simp only [compileRef]
+    by_cases hdef : st.defined.contains r.tid = true
+    · simp only [hdef, if_true]
+      exact h.log_nonpush _ (by intro t; simp)
+    · simp only [hdef, Bool.false_eq_true, if_false]
+      have hnd : r.tid ∉ st.defined := by simpa using hdef
+      by_cases hsub : (!(r.allowCtes && r.preferCte)) = true
+      · simp only [hsub, if_true]
+        have s0 := h.log_nonpush (Ev.subBegin r.tid) (by intro t; simp)
+        have s1 := hfold (bodyOf b r.bodyId) _ s0.once
+        have s2 := s1.once.log_nonpush (Ev.subEnd r.tid) (by intro t; simp)
+        exact (s0.trans s1).trans s2
+      · simp only [hsub, Bool.false_eq_true, if_false]
+        -- the CTE branch
+        have o0 : Once { defined := r.tid :: st.defined, log := st.log ++ [Ev.cteBegin r.tid] } := by
+          have s0 := h.log_nonpush (Ev.cteBegin r.tid) (by intro t; simp)
+          exact ⟨fun t ht => List.mem_cons_of_mem _ (s0.once.marked t ht), s0.once.nodup⟩
+        have s1 := hfold (bodyOf b r.bodyId) _ o0
+        -- r.tid has not been pushed so far
+        have hnot : Ev.ctePush r.tid ∉ ((bodyOf b r.bodyId).foldl (fun s x => compileRef b fuel s x)
+            { defined := r.tid :: st.defined, log := st.log ++ [Ev.cteBegin r.tid] }).log := by
+          intro hp
+          rcases s1.fresh r.tid hp with h1 | h1
+          · rcases List.mem_append.1 h1 with h2 | h2
+            · exact hnd (h.marked r.tid h2)
+            · simp at h2
+          · exact h1 (by simp)
+        refine ⟨⟨?_, ?_⟩, ?_, ?_⟩
+        · intro t ht
+          simp only [List.mem_append, List.mem_cons, List.not_mem_nil, or_false] at ht
+          rcases ht with h1 | h1 | h1
+          · exact s1.once.marked t h1
+          · cases h1; exact s1.grows r.tid (by simp)
+          · cases h1
+        · rw [withList_append]
+          simp only [withList, List.filterMap_cons, List.filterMap_nil]
+          rw [List.nodup_append]
+          refine ⟨s1.once.nodup, by simp, ?_⟩
+          intro a ha b' hb
+          simp at hb
+          subst hb
+          intro hab
+          subst hab
+          exact hnot ((mem_withList _ _).1 ha)
+        · intro t ht
+          exact s1.grows t (List.mem_cons_of_mem _ ht)
+        · intro t ht
+          simp only [List.mem_append, List.mem_cons, List.not_mem_nil, or_false] at ht
+          rcases ht with h1 | h1 | h1
+          · rcases s1.fresh t h1 with h2 | h2
+            · rcases List.mem_append.1 h2 with h3 | h3
+              · exact Or.inl h3
+              · simp at h3
+            · exact Or.inr (fun hd => h2 (List.mem_cons_of_mem _ hd))
+          · cases h1; exact Or.inr hnd
+          · cases h1
+
+/-- **no relation is defined twice**: the WITH list has no repetition -/
+theorem with_list_nodup (b : Bodies) (fuel : Nat) (extern : List Nat) (main : List Ref) :
+    (withList (compileMain b fuel extern main)).Nodup := by
+  have h0 : Once { defined := extern } := ⟨by intro t ht; simp at ht, by simp [withList]⟩
+  have : ∀ (refs : List Ref) (st : St), Once st → Once (compileRefs b fuel st refs) := by
+    intro refs
+    unfold compileRefs
+    induction refs with
+    | nil => intro st h; simpa using h
+    | cons x xs ih => intro st h; simp only [List.foldl_cons]; exact ih _ (compile_once b fuel st x h).once
+  exact (this main _ h0).nodup
+
 end Lemmas.CteOrder
